@@ -74,6 +74,11 @@ int finish(void);
 extern int g_paint;                 /* -1: off; else the byte pattern (--paint) */
 void verif_paint_stack(void);       /* fills the stack below the caller with the pattern */
 void verif_paint_obj(void *p, size_t n);  /* caller object before init/set_key: pattern, or poison under MSan */
+void crash_guard_install(void);             /* fatal signals inside a registered case become that case's violation */
+void crash_case(const char *prop, const char *kind, int n, const int *v, const uint8_t *buf, size_t m);
+void crash_case_done(void);
+uint8_t *guard_tail(int slot, size_t n);   /* n bytes ending at a PROT_NONE page (slots 0..7) */
+uint8_t *guard_head(int slot, size_t n);   /* n bytes starting right after a PROT_NONE page */
 uint64_t verif_shadow_sig(const void *p, size_t n);   /* which bytes MemorySanitizer holds uninitialised (0 elsewhere) */
 void verif_unpoison(void *p, size_t n);   /* harness-side bookkeeping copies of painted memory (MSan builds) */
 /* order-independent digest of everything the library returned (outputs, schedules, return values) */
